@@ -615,9 +615,16 @@ func cookieValue(rec *httptest.ResponseRecorder, name string) (string, bool) {
 }
 
 // login runs the real login + callback handlers against the fake provider (ungated).
-func (s *stack) login(sid, acr string) (*loginResult, error) {
+func (s *stack) login(sid, acr string) (*loginResult, error) { return s.loginCarrying(sid, acr, "") }
+
+// loginCarrying: the same, by a browser that already holds a session cookie (carry != ""): it travels with the login and the
+// callback request, as it does when a logged-in browser logs in again.
+func (s *stack) loginCarrying(sid, acr, carry string) (*loginResult, error) {
 	req := httptest.NewRequest("GET", "http://wonderwall/oauth2/login", nil)
 	navHeaders(req)
+	if carry != "" {
+		req.AddCookie(&http.Cookie{Name: cookie.Session, Value: carry})
+	}
 	rec := s.serveMain(req)
 	if rec.Code != http.StatusFound {
 		return nil, fmt.Errorf("login: status %d body %s", rec.Code, rec.Body.String())
@@ -645,6 +652,9 @@ func (s *stack) login(sid, acr string) (*loginResult, error) {
 	navHeaders(cb)
 	cb.AddCookie(&http.Cookie{Name: cookie.Login, Value: lc})
 	cb.AddCookie(&http.Cookie{Name: cookie.Retry, Value: "9"})
+	if carry != "" {
+		cb.AddCookie(&http.Cookie{Name: cookie.Session, Value: carry})
+	}
 	rec2 := s.serveMain(cb)
 	if rec2.Code == http.StatusInternalServerError || rec2.Code == http.StatusUnauthorized {
 		return nil, errLoginRejected
